@@ -84,8 +84,14 @@ class Bio(Suite):
     show = "show_bio"
 
     def gen(self, tier, rng):
-        cases = [{"s": gen.GENERIC, "D": [[[3]], [[2]], [[1], [2]]], "starters": "none", "one": False},   # F3 witness
-                 {"s": gen.UNIFYING, "D": [[[1]], [[3], [2]]], "starters": "none", "one": False}]         # F4: id orders differ
+        # two datasets (found by a long random search, kept as a corpus) on which the consensus of a single starter is strictly better than
+        # every local optimum reached from the input rankings: whatever way the starters are handed over, the result must not be worse
+        W1 = [[[9], [6], [1], [2], [7], [5], [3], [8, 4]], [[3], [7], [4], [2, 5], [6], [8, 1], [9]], [[6, 7], [2, 4], [3, 5], [1], [9], [8]]]
+        W2 = [[[5], [1], [6], [2], [7], [4], [8, 3]], [[1], [3, 4, 6], [7], [2, 5], [8]], [[3], [4], [5, 7], [8], [6], [1, 2]]]
+        corpus = [{"s": gen.UNIFYING, "D": W, "starters": st, "one": one, "as_tuple": tup}
+                  for W, st in ((W1, "borda"), (W2, "copeland")) for one in (True, False) for tup in (True, False)]
+        cases = corpus + [{"s": gen.GENERIC, "D": [[[3]], [[2]], [[1], [2]]], "starters": "none", "one": False},   # F3 witness
+                 {"s": gen.UNIFYING, "D": [[[1]], [[3], [2]]], "starters": "none", "one": False}]       # F4: id orders differ
         for _ in range(260 if tier == "quick" else 4000):
             st = rng.choice(list(STARTERS))
             # adversarial for F4: first-appearance order in the dataset differs from the order in unified / consensus rankings
